@@ -21,16 +21,21 @@ RULE = ("TLC enumerates every obstacle descriptor of MC_Occupancy.tla: dynamic o
         "triangle, L-polygon, centred group; off-centre group at q=0) x 4 quarter turns x {no prediction, trajectory of "
         "1..3 states x {KS, PM, Custom, Custom-PM} x 2 motions, set-based with 1..2 stored occupancies x 2 families}; static, "
         "phantom, environment obstacles; uncertain states (5 position regions, 5 orientation intervals, 6 combinations) x "
-        "5 shapes x {static, dynamic initial, trajectory state KS/Custom}.  Each is queried with occupancy_at_time and "
-        "state_at_time for t in 0..7.  Scenarios: every subset of <= 3 (thorough: 4) of 8 reduced descriptors x "
-        "occupancies_at_time_step (t 0..4 x 5 roles), obstacle_states_at_time_step (t 0..4), obstacles_by_role_and_type "
-        "(5 roles x 4 types), obstacles_by_position_intervals (3 x 3 intervals x 4 role sets x 3 times).  Plus seeded "
-        "random exact descriptors (longer trajectories, larger coordinates).  distinct_nontrivial = distinct dynamic "
+        "5 shapes x {static, dynamic initial, trajectory state KS/Custom}.  GAP g between the initial time step and the "
+        "first prediction step (trajectory / set-based / phantom first step t0+1+g): g = 0 with the full product, g in "
+        "{1, 2} x all t0 x all predictions x a reduced set (3 shapes x 2 quarter turns; thorough: all), phantoms with "
+        "g 0..2, an uncertain trajectory state behind a gap of 2.  Each is queried with occupancy_at_time and "
+        "state_at_time for t in 0..8 (before, t0, gap, inside, last, after).  Scenarios: every subset of <= 3 (thorough: 4) "
+        "of 9 reduced descriptors (one set-based with gap 1, one trajectory with gap 2) x "
+        "occupancies_at_time_step (t 0..5 x 5 roles), obstacle_states_at_time_step (t 0..5), obstacles_by_role_and_type "
+        "(5 roles x 4 types), obstacles_by_position_intervals (3 x 3 intervals x 4 role sets x times 0, 1, 3).  Plus seeded "
+        "random exact descriptors (longer trajectories, larger coordinates, gaps up to 5).  distinct_nontrivial = distinct dynamic "
         "descriptors with a prediction or an uncertain state + distinct scenarios with >= 2 obstacles.")
 ASSUMPTIONS = ["poses on the integer lattice with quarter-turn orientations; point-mass velocities on the 4 axis directions",
                "shapes have their centroid at the shape origin; shape groups are centred or used at q = 0 only "
                "(rotation centre of parts is not fixed by the statement)",
-               "trajectories are contiguous and start at t0 + 1; set-based predictions store exact time steps t0 + 1..",
+               "trajectories are contiguous and start at t0 + 1 + g, g >= 0; set-based predictions store the exact time "
+               "steps t0 + 1 + g..; the time horizon of a dynamic obstacle is {t0} union the prediction's steps",
                "polygonal regions are compared as vertex sets in doubled integer coordinates",
                "uncertain states: enclosure is required at the obligation poses only (corners + centre of the position "
                "region x start/mid/end of the orientation interval); discs are placed as shapely 64-gons",
@@ -76,6 +81,7 @@ def _rnd_shape(rng):
 def _rnd_ob(rng):
     t0 = rng.randint(0, 5)
     n = rng.randint(0, 6)
+    g = rng.choice([0, 0, 1, 2, 3, 5])                            # gap before the first predicted step
     sh = _rnd_shape(rng)
     x, y, q = rng.randint(-20, 20), rng.randint(-20, 20), rng.randint(0, 3)
     init = _rnd_state(rng, "initial", t0, x, y, q)
@@ -87,17 +93,17 @@ def _rnd_ob(rng):
             sts = []
             for i in range(1, n + 1):
                 x, y, q = x + rng.randint(-3, 3), y + rng.randint(-3, 3), (q + rng.randint(0, 1)) % 4
-                sts.append(_rnd_state(rng, kind, t0 + i, x, y, q))
-            pred = {"k": "traj", "states": sts}
+                sts.append(_rnd_state(rng, kind, t0 + g + i, x, y, q))
+            pred = {"k": "traj", "g": g, "states": sts}
         else:
             occs = []
             for i in range(1, n + 1):
-                occs.append({"t": t0 + i, "shape": _rnd_shape(rng),
+                occs.append({"t": t0 + g + i, "shape": _rnd_shape(rng),
                              "pose": [x + rng.randint(-3, 3) * i, y + rng.randint(-3, 3), rng.randint(0, 3)]})
-            pred = {"k": "set", "occs": occs}
+            pred = {"k": "set", "g": g, "occs": occs}
     o = {"id": rng.randint(1, 50), "role": role, "type": "car" if role == "dynamic" else "parkedVehicle", "t0": t0,
          "shape": sh, "init": init, "pred": pred}
-    return {"kind": "ob", "o": o, "tmax": t0 + n + 2, "obl": [], "src": "random"}
+    return {"kind": "ob", "o": o, "tmax": t0 + g + n + 2, "obl": [], "src": "random"}
 
 
 def cases(ctx):
@@ -341,14 +347,16 @@ def _plen(o):
 def _where(o, t):
     if o["role"] in ("static", "environment"):
         return "any"
-    first = o["t0"] + 1 if o["role"] == "phantom" else o["t0"]
-    last = o["t0"] + _plen(o)
-    if t < first:
+    g = o["pred"].get("g", 0)
+    last = o["t0"] + g + _plen(o)
+    if t == o["t0"] and o["role"] == "dynamic":
+        return "t0"
+    if t <= o["t0"]:
         return "before"
     if t > last:
         return "after"
-    if t == o["t0"]:
-        return "t0"
+    if t <= o["t0"] + g:
+        return "gap"                                              # between the initial step and the first predicted step
     return "last" if t == last else "inside"
 
 
